@@ -162,7 +162,7 @@ impl<M: RawMutex + 'static> Sut for EventSut<M> {
 
     fn random_op(&self, rng: &mut Rng) -> Value {
         let k = self.futs.k();
-        loop {
+        for _attempt in 0..400 {
             let f = 1 + rng.below(k);
             let w = variant_name(self.wk[rng.below(self.wk.len())]);
             match rng.below(12) {
@@ -190,5 +190,6 @@ impl<M: RawMutex + 'static> Sut for EventSut<M> {
                 _ => return json!({"op": "is_set"}),
             }
         }
+        json!({"op": "idle"})
     }
 }
